@@ -91,6 +91,7 @@ void h_layer_roundtrip(void)
   VERIF_ISTREAM in;
   in.buf = out.buf; in.len = out.len; in.pos = l0; in.failbit = 0; in.eofbit = 0;
   verif_thrown = 0;
+  verif_b_read_calls = 0;   /* the reader's ghost call counter starts at zero (the writer's frame lists all B ghosts, so it is havocked by the replaced call) */
   LAYER_OWN_T r = layer_read_binary(&in);
   __CPROVER_assert(verif_thrown == 0, "a freshly written image loads without exception");
   __CPROVER_assert(in.pos == in.len, "the reader consumes exactly the bytes the writer produced");
